@@ -19,11 +19,18 @@ class G:
         self.counters = 0
 
     # ---- expressions: ('i',n) ('b',bool) ('v',x) ('bin',op,a,b) ('neg',a) ('cmp',op,a,b) ('and',a,b) ('or',a,b) ('not',a) ('ite',c,a,b)
+    #                   ('abs',a) ('min',[a,b,...]) ('max',[a,b,...])  (two or more int-typed arguments; the model is sent the left fold)
     def int_expr(self, d, names):
         r = self.rng
         if d <= 0 or r.random() < 0.3:
             return r.choice([("i", r.randint(0, 9)), ("v", r.choice(names))]) if names else ("i", r.randint(0, 9))
-        k = r.choice(["bin", "bin", "bin", "neg", "ite", "leaf", "bbit"])
+        k = r.choice(["bin", "bin", "bin", "neg", "ite", "leaf", "bbit", "abs", "mm"])
+        if k == "abs":
+            if r.random() < 0.15:
+                return ("abs", self.bool_expr(d - 1, names))      # abs(True) is the int 1 on both sides
+            return ("abs", self.int_expr(d - 1, names))
+        if k == "mm":
+            return (r.choice(["min", "max"]), [self.int_expr(d - 1, names) for _ in range(r.choice([2, 2, 2, 3]))])
         if k == "bin":
             return ("bin", r.choice(list(BIN)), self.int_expr(d - 1, names), self.int_expr(d - 1, names))
         if k == "bbit":
@@ -83,7 +90,8 @@ class G:
         if k == "wr":
             return ("wr", self.int_expr(2, inames))
         if k == "sl":
-            return ("sl", r.choice([("i", r.randint(0, 50)), ("bin", "mul", ("i", r.randint(0, 9)), ("i", 10)), ("bin", "add", ("v", r.choice(inames)), ("i", 0)) if False else ("i", 5)]))
+            return ("sl", r.choice([("i", r.randint(0, 50)), ("bin", "mul", ("i", r.randint(0, 9)), ("i", 10)), ("i", 5),
+                                    ("abs", ("neg", ("i", r.randint(0, 30)))), ("max", [("i", r.randint(0, 9)), ("bin", "band", ("i", r.randint(0, 40)), ("i", 12))])]))
         if k == "if":
             els = []
             rr = r.random()
@@ -101,7 +109,8 @@ class G:
         if k == "for":
             self.loopvars += 1
             iv = f"i{self.loopvars}"
-            cnt = r.choice([("i", r.randint(0, 4)), ("bin", "add", ("i", 1), ("i", r.randint(0, 2))), ("v", "lim")])
+            cnt = r.choice([("i", r.randint(0, 4)), ("bin", "add", ("i", 1), ("i", r.randint(0, 2))), ("v", "lim"),
+                            ("min", [("i", r.randint(0, 4)), ("i", 3)]), ("min", [("v", "lim"), ("i", 2)])])
             body = self.block(d - 1, names, True, r.randint(1, 3))
             if r.random() < 0.6:
                 body.append(("wr", ("bin", "add", ("v", iv), ("i", 0))))
@@ -174,7 +183,9 @@ class G:
             if n in BOOLS:
                 pre.append(("as", n, r.choice([("b", True), ("b", False), ("cmp", "lt", ("i", r.randint(0, 5)), ("i", 3))])))
             else:
-                pre.append(("as", n, r.choice([("i", r.randint(0, 9)), ("bin", "add", ("i", 2), ("i", r.randint(0, 5))), ("neg", ("i", r.randint(1, 5)))])))
+                pre.append(("as", n, r.choice([("i", r.randint(0, 9)), ("bin", "add", ("i", 2), ("i", r.randint(0, 5))), ("neg", ("i", r.randint(1, 5))),
+                                               ("abs", ("neg", ("i", r.randint(0, 9)))), ("max", [("i", r.randint(0, 9)), ("neg", ("i", 3)), ("i", 4)]),
+                                               ("bin", r.choice(BIT), ("neg", ("i", r.randint(1, 9))), ("i", r.randint(0, 15)))])))
         pre.append(("as", "lim", ("i", r.randint(0, 3))))
         if self.promote:
             body_pre = []
@@ -226,6 +237,8 @@ def py_expr(e):
     if k in ("and", "or"): return f"({py_expr(e[1])} {k} {py_expr(e[2])})"
     if k == "not": return f"(not {py_expr(e[1])})"
     if k == "ite": return f"({py_expr(e[2])} if {py_expr(e[1])} else {py_expr(e[3])})"
+    if k == "abs": return f"abs({py_expr(e[1])})"
+    if k in ("min", "max"): return f"{k}({', '.join(py_expr(a) for a in e[1])})"
     if k == "raw": return e[1]
     raise ValueError(e)
 
@@ -288,6 +301,12 @@ def sx_expr(e):
     if k in ("and", "or"): return f"({k} {sx_expr(e[1])} {sx_expr(e[2])})"
     if k == "not": return f"(not {sx_expr(e[1])})"
     if k == "ite": return f"(ite {sx_expr(e[1])} {sx_expr(e[2])} {sx_expr(e[3])})"
+    if k == "abs": return f"(abs {sx_expr(e[1])})"
+    if k in ("min", "max"):
+        acc = sx_expr(e[1][0])
+        for a in e[1][1:]:
+            acc = f"({k} {acc} {sx_expr(a)})"
+        return acc
     raise ValueError(e)
 
 
